@@ -121,6 +121,17 @@ class SingleBase(object):
         finally:
             if self.world is not None:
                 res.events = self.world.run.seq
+                kn = self.world.knobs
+                for k in ("relstore", "two_instances", "short_writes"):
+                    if kn.get(k):
+                        res.flags.add("knob:" + k)
+                if kn.get("pid_skin"):
+                    res.flags.add("knob:pid-skin-" + kn["pid_skin"][0])
+                for k in ("short-write", "exdev"):
+                    n = self.world.run.counts.get(k)
+                    if n:
+                        res.stats.setdefault("faults", {})
+                        res.stats["faults"][k] = res.stats["faults"].get(k, 0) + n
                 res.digest = self.world.run.digest()
                 if not self.keep:
                     self.world.cleanup()
@@ -596,6 +607,7 @@ class AtomEngine(SingleBase):
                 res.violations.append(sv)
                 return
             cids = [mdl.cid_of(c) for c in w.contents] + [mdl.resolve_cid(["x", k]) for k in range(3)]
+            cids += [c.upper() for c in cids]  # tag_object takes the cid as the caller spells it
             ob = AtomObserver(w, w.mcontents, cids, mdl.algo)
             with seam.passthrough():
                 ob.check(None)
